@@ -183,7 +183,17 @@ struct FnD : FnBase { using FnBase::FnBase;
   Val operator()() const { w->call(id, {}); return Val(Payload{id}); } };
 
 // ---------------------------------------------------------------- custom query + tagged scheduler/allocator for C12
-struct QueryTag { int v = 0; };
+// move-sensitive on purpose: a moved-from tag reads -2, so a query value that the library moved out of a sender it was
+// only allowed to copy from (lvalue connect, re-connect by retry_when / repeat_effect_until) is visible to the leaves
+struct QueryTag {
+  int v = 0;
+  QueryTag() = default;
+  explicit QueryTag(int x) noexcept : v(x) {}
+  QueryTag(const QueryTag&) = default;
+  QueryTag& operator=(const QueryTag&) = default;
+  QueryTag(QueryTag&& o) noexcept : v(o.v) { o.v = -2; }
+  QueryTag& operator=(QueryTag&& o) noexcept { v = o.v; o.v = -2; return *this; }
+};
 inline constexpr struct custom_query_t {
   template <class R, std::enable_if_t<unifex::is_tag_invocable_v<custom_query_t, const R&>, int> = 0>
   QueryTag operator()(const R& r) const noexcept { return unifex::tag_invoke(*this, r); }
@@ -199,6 +209,11 @@ template <class T> struct TagAlloc {
   World* w; int tag;
   TagAlloc(World* w, int tag) : w(w), tag(tag) {}
   template <class U> TagAlloc(const TagAlloc<U>& o) : w(o.w), tag(o.tag) {}
+  TagAlloc(const TagAlloc&) = default;
+  TagAlloc& operator=(const TagAlloc&) = default;
+  // move-sensitive like QueryTag: a moved-from allocator has tag -2
+  TagAlloc(TagAlloc&& o) noexcept : w(o.w), tag(o.tag) { o.tag = -2; }
+  TagAlloc& operator=(TagAlloc&& o) noexcept { w = o.w; tag = o.tag; o.tag = -2; return *this; }
   T* allocate(size_t n) { vrt::ev("{\"e\":\"Alloc\",\"tag\":%d}", tag); return static_cast<T*>(::operator new(n * sizeof(T))); }
   void deallocate(T* p, size_t) { vrt::ev("{\"e\":\"Free\",\"tag\":%d}", tag); ::operator delete(p); }
   template <class U> bool operator==(const TagAlloc<U>& o) const { return tag == o.tag; }
